@@ -1,0 +1,28 @@
+//go:build verif
+
+// Contracts for package recordio, read by the govc verifier (/verif). Comments only.
+package recordio
+
+// Writer vocabulary (WriterI): wrSize(w) is the logical size Size() reports - the offset the next record is written at.
+
+//@ ghost wrSize(w Ref) Int
+//@ ghost wrCount(w Ref) Int
+//@ spec func wrErr(w Ref, i Int) Err
+//@ spec func wrSeekErr(w Ref, i Int) Err
+//@ ghost wrSeeks(w Ref) Int
+
+//@ iface SizeI.Size
+//@   ensures r0 == wrSize(this)
+//@   pure
+
+//@ iface WriterI.Write
+//@   ensures [step] wrCount(this) == old(wrCount(this)) + 1
+//@   ensures [err] r1 == wrErr(this, old(wrCount(this)))
+//@   ensures [offset] r1 == nil ==> r0 == old(wrSize(this)) && wrSize(this) > old(wrSize(this))
+//@   modifies wrCount(this), wrSize(this)
+
+//@ iface WriterI.Seek
+//@   ensures [step] wrSeeks(this) == old(wrSeeks(this)) + 1
+//@   ensures [err] r0 == wrSeekErr(this, old(wrSeeks(this)))
+//@   ensures [moved] r0 == nil ==> wrSize(this) == offset
+//@   modifies wrSeeks(this), wrSize(this)
